@@ -2,7 +2,7 @@
     list-encoded operands.  Evaluated inside Coq (vm_compute) and, for volume,
     through extraction (Extract.v). *)
 From Coq Require Import ZArith List.
-From FastorV Require Import Base.Scalar Base.Mem Model.Cfg Model.Matmul Model.TMatmul Model.Expr Model.ExprInt.
+From FastorV Require Import Base.Scalar Base.Mem Model.Cfg Model.Matmul Model.TMatmul Model.Expr Model.ExprInt Model.Reduce.
 Import ListNotations.
 
 Definition run_matmul_Z (c : cfg) (t : ety) (M K N : nat) (a b : list Z) : list Z :=
@@ -22,3 +22,15 @@ Definition run_assign_Z (bits : Z) (W n : nat) (boolean : bool) (aop : option na
   let m : mem ZS := fun k i => nth i (nth k tensors []) 77777%Z in
   let o := int_sops bits in
   map (assign o (vops_of o) W 0 n boolean aop e m 0) (seq 0 (n + 2)).
+
+(** C16: reductions on list-encoded integer data (wrap-around arithmetic of width [bits]) *)
+Definition run_reduce_Z (bits : Z) (W : nat) (data : list Z) (lo hi : Z) : list Z :=
+  let n := length data in let f := fun i => nth i data 0%Z in
+  [ reduce (int_bin bits 0) 0%Z W n f; reduce (int_bin bits 2) 1%Z W n f;
+    reduce Z.min hi W n f; reduce Z.max lo W n f ].
+Definition run_preds (data : list bool) : list bool :=
+  let n := length data in let f := fun i => nth i data false in
+  [ all_of f n; any_of f n; none_of f n ].
+Definition run_det_Z (n : nat) (a : list Z) : Z :=
+  let f := fun i => nth i a 0%Z in
+  match n with 2 => det2 f | 3 => det3 f | 4 => det4 f | _ => det_spec n f end.
